@@ -75,6 +75,16 @@ pub fn load_known(path: &Path) -> Vec<Known> {
     out
 }
 
+/// For `rtasim replay`: is a reproduced violation with this finding key a recorded known finding?
+/// (The replay then prints the KNOWN-FINDING line and exits 0, like the check itself.)
+pub fn known_match(prop: &str, key: &str) -> Option<String> {
+    let path = std::env::var("RTASIM_KNOWN").unwrap_or_else(|_| "/verif/known_findings.txt".into());
+    load_known(Path::new(&path))
+        .into_iter()
+        .find(|k| k.property == prop && k.key == key)
+        .map(|k| k.what)
+}
+
 pub struct Outcome {
     pub exit_code: i32,
 }
